@@ -1,3 +1,4 @@
+import RavenModel.Model.Plan
 import RavenModel.Model.Expunge
 import RavenModel.Model.MailInv
 /-! # C09 — sequence numbers, counts and expunge notices describe the same mailbox -/
@@ -55,5 +56,16 @@ theorem expunge_notices (s : Store) (box : Bytes) (b : Mbox) (h : s.find box = s
 example : parseSeq (b!"3:2,1,9") 4 = [2, 3, 1] := by decide
 example : parseUid (b!"3:*") [1, 3, 7] = [3, 7] := by decide
 example : notices (fun l => l.uid % 2 = 0) 1 0 [⟨1, 0, []⟩, ⟨2, 0, []⟩, ⟨4, 0, []⟩, ⟨5, 0, []⟩] = [2, 2] := by decide
+
+/-! ## the counting and expunging statements (plan regenerated from /repo on every run) -/
+
+/-- C09.7  EXISTS / STATUS MESSAGES count link rows (no `DISTINCT`: two copies of one message in a mailbox are two
+messages), and EXPUNGE / CLOSE pick their victims by the delimited flag test, never by an open substring of the flag list. -/
+theorem plan_counts_rows :
+    Plan.free (b!"DISTINCT") (Plan.trace (b!"db.GetMessageCountPerUser")) = true ∧
+    Plan.sqlOnly (Plan.trace (b!"db.GetMessageCountPerUser")) = [(b!"sql SELECT message_mailbox")] ∧
+    [(b!"message.HandleExpunge"), (b!"selection.HandleClose"), (b!"db.GetUnseenCountPerUser")].all (fun f =>
+      (Plan.trace f).all (fun e => !GoStr.containsSub e (b!"LIKE(") || GoStr.containsSub e (b!"LIKE(delimited)"))) = true := by
+  decide
 
 end Raven.Props.C09
